@@ -231,7 +231,9 @@ func (w *World) startTLSHandler() gldap.HandlerFunc {
 		for i := 0; i < sp.YieldsAfter; i++ {
 			vrt.Yield()
 		}
-		if err := r.StartTLS(w.TLSCfg); err != nil {
+		err = r.StartTLS(w.TLSCfg)
+		w.Notes["starttls-done"]++
+		if err != nil {
 			w.Notes["starttls-handshake-error"]++
 			vrt.Logf("starttls-error conn=%d", conn)
 			return
@@ -450,7 +452,6 @@ func (c *Cl) UpgradeTLS(cfg *tls.Config) error {
 		return err
 	}
 	c.NC = tc
-	c.Got = nil
 	return nil
 }
 
